@@ -29,6 +29,9 @@ use crate::ast::{
 use crate::common::{Out, Rng};
 use crate::with_ctx;
 
+#[path = "c20p.rs"]
+mod c20p;
+
 const UNKNOWN: u32 = 9999;
 
 /* ------------------------------------------------------------ reverse tables */
@@ -754,6 +757,7 @@ pub fn run(out: &mut Out, thorough: bool, seed: u64) {
         }
     }
     desc_checks(out);
+    c20p::run(out, thorough, &mut rng);
     let _ = std::panic::take_hook();
     out.note("domain", format!(
         "4 contexts; hand-written asymmetric fragments + enumerate depth {} + random_b; maps id/ren/ren2/comp/unc/xonly/fail:i/failcall:n; descriptors wsh/sh/sh(wsh)/wpkh/pkh/pk/tr self-checked",
